@@ -342,12 +342,384 @@ pub fn arb_case(max_len: usize) -> impl Strategy<Value = Case> {
 
 pub fn run(r: &Run) {
     r.set_rule(RULE);
-    r.assume("the driver is modelled, not executed: Set*Timer(n) replaces the single pending deadline (n=0 due at once), a due hold timer is served before a due keepalive timer and before the next received message — as apply_outputs()/run_select() do; a Set*Timer value >= 1e9 s is treated as 'disarmed'");
+    r.assume("timed-scripts: the driver is modelled, not executed (driver-timed-scripts executes it): Set*Timer(n) replaces the single pending deadline (n=0 due at once), a due hold timer is served before a due keepalive timer and before the next received message — as apply_outputs()/run_select() do; a Set*Timer value >= 1e9 s is treated as 'disarmed'");
     r.assume("the value of the pre-OPEN (OpenSent) timer is implementation-chosen and not checked; scripts that let it expire before the OPEN arrives are not judged");
     r.prop("timed-scripts", r.tier.pick(300_000, 5_000_000), || arb_case(r.tier.pick(24, 60)), check);
+    r.assume(DRIVER_RULE);
+    r.prop("driver-timed-scripts", r.tier.pick(3_000, 100_000), || arb_driver_case(r.tier.pick(12, 24)), check_driver);
 }
 
-pub fn replay(_sub: &str, case: &Value) -> Result<CheckResult, String> {
+pub fn replay(sub: &str, case: &Value) -> Result<CheckResult, String> {
     let c: Case = decode_case(case)?;
+    if sub.starts_with("driver") {
+        return Ok(check_driver(&c));
+    }
     Ok(check(&c))
+}
+
+// ---------------------------------------------------------------------------
+// driver level: the same timed scripts through the daemon's PeerSession::run
+// (apply_outputs / run_select / flush_tx with their tokio timers) over a loopback
+// connection, on tokio's paused clock which the check advances itself.
+// Reference: the virtual-time driver model above, run with the same FSM.
+// ---------------------------------------------------------------------------
+
+pub const DRIVER_RULE: &str = "driver-timed-scripts: (local hold, remote hold) as above and a timed script of Advance / RxKeepalive / RxUpdate; the daemon's PeerSession::run is spawned on an accepted loopback connection \
+under tokio's paused clock; the check advances the clock to half a second before and after every instant at which the reference (the virtual-time driver model + PeerFsm) predicts a KEEPALIVE or a teardown, \
+and writes the scripted messages a quarter second after their instant (after due timers, as the model serves them). Compared per one-second window: number of KEEPALIVEs received from the daemon, hold-timer NOTIFICATION + close; \
+windows in which nothing is predicted must be silent, and a session the model keeps up must still be open at the end. non-trivial := as above";
+
+#[derive(Clone, Copy, Debug, PartialEq)]
+enum Act {
+    Open,
+    Keepalive,
+    Update,
+}
+
+struct Plan {
+    acts: Vec<(u64, Act)>,
+    keepalives: Vec<u64>,
+    down: Option<(String, u64)>,
+    end: u64,
+    negotiated: u64,
+    established: bool,
+    /// a keepalive timer was due in the very second the session went down: which of the two
+    /// the driver serves first is a tie of the model's whole seconds, not of the daemon
+    ka_due_at_down: bool,
+}
+
+/// what the model driver + FSM do with the script; `eor` = the daemon sends one UPDATE
+/// (End-of-RIB) when the session establishes, which the driver reports as UpdateSent
+fn plan(c: &Case, eor: bool) -> Plan {
+    let role = if c.passive { Role::Passive } else { Role::Active };
+    let mut fsm = PeerFsm::new(0x0100_0001, LOCAL_AS, vec![bgp::Capability::FourOctetAsNumber(LOCAL_AS)], c.local_hold as u64, REMOTE_AS, FnvHashMap::default());
+    let mut d = Driver { now: 0, hold: None, ka: None, down: None, timer_fired: vec![], hold_values: vec![], ka_values: vec![], keepalives_sent: vec![] };
+    let negotiated = c.local_hold.min(c.remote_hold) as u64;
+    let ka_int = negotiated / 3;
+    let mut acts = Vec::new();
+    let mut established = false;
+    let o = fsm.process(role, Input::Connected(false));
+    d.apply(o);
+    d.serve_due(&mut fsm, role);
+    d.advance(c.open_delay as u64, &mut fsm, role);
+    if d.down.is_none() {
+        acts.push((d.now, Act::Open));
+        let o = fsm.process(role, Input::MessageReceived(open_msg(REMOTE_AS, c.remote_hold, 0x0a00_0002)));
+        d.apply(o);
+        d.serve_due(&mut fsm, role);
+    }
+    if d.down.is_none() {
+        d.advance(c.ka_delay as u64, &mut fsm, role);
+    }
+    if d.down.is_none() {
+        acts.push((d.now, Act::Keepalive));
+        let o = fsm.process(role, Input::MessageReceived(bgp::Message::Keepalive));
+        d.apply(o);
+        d.serve_due(&mut fsm, role);
+        established = fsm.state(role) == State::Established;
+        if established && eor {
+            let o = fsm.process(role, Input::UpdateSent);
+            d.apply(o);
+            d.serve_due(&mut fsm, role);
+        }
+    }
+    for ev in &c.script {
+        if d.down.is_some() {
+            break;
+        }
+        match ev {
+            Ev::Advance(dt) => {
+                let secs: i64 = match dt {
+                    Dt::Abs(n) => *n as i64,
+                    Dt::Ka(k) => ka_int as i64 + *k as i64,
+                    Dt::Hold(k) => negotiated as i64 + *k as i64,
+                    Dt::ToHoldDeadline(k) => d.hold.map(|h| h as i64 - d.now as i64).unwrap_or(5) + *k as i64,
+                };
+                d.advance(secs.clamp(0, 200_000) as u64, &mut fsm, role);
+            }
+            Ev::RxKeepalive => {
+                acts.push((d.now, Act::Keepalive));
+                let o = fsm.process(role, Input::MessageReceived(bgp::Message::Keepalive));
+                d.apply(o);
+                d.serve_due(&mut fsm, role);
+            }
+            Ev::RxUpdate => {
+                acts.push((d.now, Act::Update));
+                let o = fsm.process(role, Input::MessageReceived(update_msg()));
+                d.apply(o);
+                d.serve_due(&mut fsm, role);
+            }
+            Ev::RxRouteRefresh | Ev::UpdateSent => {}
+        }
+    }
+    let ka_due_at_down = d.down.as_ref().is_some_and(|(_, td)| d.ka.is_some_and(|k| k <= *td));
+    Plan { acts, keepalives: d.keepalives_sent.clone(), down: d.down.clone(), end: d.now, negotiated, established, ka_due_at_down }
+}
+
+const MARKER: [u8; 16] = [0xff; 16];
+
+fn wire(a: Act, remote_hold: u16) -> Vec<u8> {
+    let mut m = MARKER.to_vec();
+    match a {
+        Act::Keepalive => m.extend_from_slice(&[0, 19, 4]),
+        Act::Update => m.extend_from_slice(&[0, 23, 2, 0, 0, 0, 0]),
+        Act::Open => {
+            let mut body = vec![4u8];
+            body.extend_from_slice(&(REMOTE_AS as u16).to_be_bytes());
+            body.extend_from_slice(&remote_hold.to_be_bytes());
+            body.extend_from_slice(&0x0a00_0002u32.to_be_bytes());
+            let mut cap = vec![65u8, 4];
+            cap.extend_from_slice(&REMOTE_AS.to_be_bytes());
+            body.push(2 + cap.len() as u8);
+            body.push(2);
+            body.push(cap.len() as u8);
+            body.extend_from_slice(&cap);
+            m.extend_from_slice(&((19 + body.len()) as u16).to_be_bytes());
+            m.push(1);
+            m.extend_from_slice(&body);
+        }
+    }
+    m
+}
+
+#[derive(Default, Debug, Clone, PartialEq)]
+struct Seen {
+    opens: usize,
+    keepalives: usize,
+    updates: usize,
+    notifications: Vec<(u8, u8)>,
+    closed: bool,
+    garbage: bool,
+}
+
+impl Seen {
+    fn silent(&self) -> bool {
+        self.opens == 0 && self.keepalives == 0 && self.updates == 0 && self.notifications.is_empty() && !self.closed && !self.garbage
+    }
+}
+
+struct Tap {
+    client: tokio::net::TcpStream,
+    buf: Vec<u8>,
+    closed: bool,
+}
+
+impl Tap {
+    /// everything the daemon sent since the last call
+    fn take(&mut self) -> Seen {
+        let mut seen = Seen::default();
+        let mut chunk = [0u8; 4096];
+        while !self.closed {
+            match self.client.try_read(&mut chunk) {
+                Ok(0) => self.closed = true,
+                Ok(n) => self.buf.extend_from_slice(&chunk[..n]),
+                Err(e) if e.kind() == std::io::ErrorKind::WouldBlock => break,
+                Err(_) => self.closed = true,
+            }
+        }
+        loop {
+            if self.buf.len() < 19 {
+                break;
+            }
+            let len = u16::from_be_bytes([self.buf[16], self.buf[17]]) as usize;
+            if len < 19 || self.buf[..16] != MARKER {
+                seen.garbage = true;
+                self.buf.clear();
+                break;
+            }
+            if self.buf.len() < len {
+                break;
+            }
+            let m: Vec<u8> = self.buf.drain(..len).collect();
+            match m[18] {
+                1 => seen.opens += 1,
+                2 => seen.updates += 1,
+                3 => seen.notifications.push((m.get(19).copied().unwrap_or(0), m.get(20).copied().unwrap_or(0))),
+                4 => seen.keepalives += 1,
+                _ => seen.garbage = true,
+            }
+        }
+        seen.closed = self.closed;
+        seen
+    }
+}
+
+/// let the session task and the I/O driver run: a little real time for the loopback delivery,
+/// then yields (the runtime polls its I/O driver on every tick, see `check_driver`); the
+/// paused clock does not move here
+async fn settle(real_us: u64) {
+    for _ in 0..3 {
+        std::thread::sleep(std::time::Duration::from_micros(real_us));
+        for _ in 0..6 {
+            tokio::task::yield_now().await;
+        }
+    }
+}
+
+async fn advance_to(t: tokio::time::Instant) {
+    let now = tokio::time::Instant::now();
+    if t > now {
+        tokio::time::advance(t - now).await;
+    }
+}
+
+fn merge(a: &mut Seen, b: Seen) {
+    a.opens += b.opens;
+    a.keepalives += b.keepalives;
+    a.updates += b.updates;
+    a.notifications.extend(b.notifications);
+    a.closed |= b.closed;
+    a.garbage |= b.garbage;
+}
+
+pub fn check_driver(c: &Case) -> CheckResult {
+    let rt = tokio::runtime::Builder::new_current_thread().enable_all().start_paused(true).event_interval(1).build().map_err(|e| Failure::new("harness", e.to_string()))?;
+    rt.block_on(drive(c))
+}
+
+async fn drive(c: &Case) -> CheckResult {
+    use crate::event::verif::{AdmitRig, NeighborCfg};
+    use std::net::{IpAddr, Ipv4Addr};
+    use std::time::Duration;
+    use tokio::io::AsyncWriteExt;
+
+    let p = plan(c, false);
+    let src = IpAddr::V4(Ipv4Addr::new(127, 0, 8, 2));
+    let rig = AdmitRig::new(LOCAL_AS, None).await.map_err(|e| Failure::new("harness", e))?;
+    let cfg = NeighborCfg { addr: src, remote_asn: REMOTE_AS, local_asn: 0, rs_client: false, rr_client: false, cluster_id: None, admin_down: false, holdtime: c.local_hold as u64, families: vec![(packet::Family::IPV4, 0)], prefix_limit: None, gr: None, llgr: None };
+    if !rig.add_neighbor(&cfg).await {
+        return Err(Failure::new("harness", format!("add_peer refuses {cfg:?}")));
+    }
+    let (view, mut conn) = rig.connect(src, !c.passive).await.map_err(|e| Failure::new("harness", e))?;
+    if view.is_none() {
+        return Err(Failure::new("harness", "the connection was not admitted".to_string()));
+    }
+    let t0 = tokio::time::Instant::now();
+    let mut tap = Tap { client: conn.client.take().ok_or_else(|| Failure::new("harness", "no client".to_string()))?, buf: vec![], closed: false };
+    let at = |secs: u64, millis: u64| t0 + Duration::from_secs(secs) + Duration::from_millis(millis);
+
+    // instants of interest, ascending
+    let mut instants: Vec<u64> = p.acts.iter().map(|(t, _)| *t).chain(p.keepalives.iter().copied()).chain(p.down.iter().map(|(_, t)| *t)).chain([0]).collect();
+    instants.sort();
+    instants.dedup();
+    let wit = |f: Failure| f.with("local_hold", c.local_hold).with("remote_hold", c.remote_hold).with("negotiated", p.negotiated);
+
+    let mut n_sent = 0u64;
+    let mut frames_written = 0u64;
+    let mut over = false; // the model's session is down
+    let mut windows = 0usize;
+    for (i, t) in instants.iter().copied().enumerate() {
+        // (1) the silent stretch up to half a second before t
+        if t > 0 && (i == 0 || instants[i - 1] + 1 < t) {
+            advance_to(at(t - 1, 500)).await;
+            settle(150).await;
+            let seen = tap.take();
+            if !seen.silent() {
+                return Err(wit(Failure::new("driver-unexpected", format!("between t={}s and t={}s the reference expects nothing from the daemon, the connection shows {seen:?}", instants.get(i.wrapping_sub(1)).map(|x| x + 1).unwrap_or(0), t))
+                    .with("what", if seen.closed || !seen.notifications.is_empty() { "teardown" } else if seen.keepalives > 0 { "keepalive" } else { "other" })));
+            }
+        }
+        // (2) scripted messages of this instant, after the timers due at it
+        let mut got = Seen::default();
+        for (_, a) in p.acts.iter().filter(|(ta, _)| *ta == t) {
+            n_sent += 1;
+            advance_to(at(t, 250 + 4 * n_sent - 2)).await;
+            settle(150).await;
+            merge(&mut got, tap.take());
+            advance_to(at(t, 250 + 4 * n_sent)).await;
+            if got.closed {
+                continue;
+            }
+            if tap.client.write_all(&wire(*a, c.remote_hold)).await.is_err() {
+                continue;
+            }
+            frames_written += 1;
+            // the daemon has read it before the clock moves on
+            let mut waited = 0;
+            loop {
+                settle(150).await;
+                merge(&mut got, tap.take());
+                if got.closed || rig.rx_frames(src).await >= frames_written {
+                    break;
+                }
+                waited += 1;
+                if waited > 400 {
+                    return Ok(CaseInfo::trivial().class("driver-inconclusive-delivery"));
+                }
+            }
+        }
+        // (3) the window closes half a second after t
+        advance_to(at(t, 500)).await;
+        let want_ka = p.keepalives.iter().filter(|k| **k == t).count();
+        let want_down = p.down.as_ref().is_some_and(|(_, td)| *td == t);
+        let mut tries = 0;
+        loop {
+            settle(if tries == 0 { 150 } else { 2000 }).await;
+            merge(&mut got, tap.take());
+            let complete = got.keepalives >= want_ka && (!want_down || got.closed);
+            if complete || tries >= 20 {
+                break;
+            }
+            tries += 1;
+        }
+        windows += 1;
+        let down_seen = got.closed || !got.notifications.is_empty();
+        if got.garbage {
+            return Err(wit(Failure::new("driver-garbage", format!("t={t}s: bytes from the daemon that are not a BGP message"))));
+        }
+        if got.updates > 0 {
+            // the reference does not model UPDATEs sent by the daemon (they restart its keepalive timer)
+            return Ok(CaseInfo::trivial().class("driver-inconclusive-daemon-sent-update"));
+        }
+        let tie = want_down && p.ka_due_at_down && got.keepalives == want_ka + 1;
+        if got.keepalives != want_ka && !tie {
+            return Err(wit(Failure::new("driver-keepalive", format!("t={t}s: the reference sends {want_ka} KEEPALIVE(s) in this second, the daemon sent {} ({got:?})", got.keepalives)).with("want", want_ka).with("got", got.keepalives)));
+        }
+        if want_down != down_seen {
+            return Err(wit(Failure::new("driver-teardown", format!("t={t}s: reference session {} in this second, the daemon's connection shows {got:?}", if want_down { format!("goes down ({})", p.down.as_ref().map(|d| d.0.as_str()).unwrap_or("")) } else { "stays up".to_string() }))
+                .with("want_down", want_down)));
+        }
+        if want_down {
+            let reason = p.down.as_ref().map(|d| d.0.clone()).unwrap_or_default();
+            if reason == "hold-expired" && !got.notifications.iter().any(|(code, _)| *code == 4) {
+                return Err(wit(Failure::new("driver-teardown", format!("t={t}s: hold-timer expiry without a Hold Timer Expired NOTIFICATION ({got:?})")).with("want_down", true)));
+            }
+            over = true;
+            break;
+        }
+    }
+    // (4) the rest of the script is silent and the session is still there
+    if !over {
+        advance_to(at(p.end, 500)).await;
+        settle(150).await;
+        let seen = tap.take();
+        if !seen.silent() {
+            return Err(wit(Failure::new("driver-unexpected", format!("after the last predicted event and up to t={}s the reference expects nothing from the daemon, the connection shows {seen:?}", p.end))
+                .with("what", if seen.closed || !seen.notifications.is_empty() { "teardown" } else if seen.keepalives > 0 { "keepalive" } else { "other" })));
+        }
+    }
+    if let Some(t) = conn.task.take() {
+        t.abort();
+    }
+    let crossed_hold = p.down.as_ref().is_some_and(|(r, _)| r == "hold-expired");
+    let zero_past_est = p.negotiated == 0 && p.established && !c.script.is_empty();
+    let mut info = CaseInfo::trivial();
+    info.nontrivial = crossed_hold || zero_past_est;
+    let _ = windows;
+    Ok(info
+        .class_if(crossed_hold, "driver/hold-expired")
+        .class_if(zero_past_est, "driver/zero-hold-past-established")
+        .class_if(p.negotiated == 0 && c.local_hold != 0, "driver/zero-negotiated-local-nonzero")
+        .class_if(p.negotiated > 0 && p.down.is_none(), "driver/survived")
+        .class_if(p.keepalives.len() > 3, "driver/several-keepalives"))
+}
+
+pub fn arb_driver_case(max_len: usize) -> impl Strategy<Value = Case> {
+    let ev = prop_oneof![
+        6 => arb_dt().prop_map(Ev::Advance),
+        3 => Just(Ev::RxKeepalive),
+        2 => Just(Ev::RxUpdate),
+    ];
+    (any::<bool>(), arb_hold(), arb_hold(), 0u16..3, 0u16..3, proptest::collection::vec(ev, 0..=max_len))
+        .prop_map(|(passive, local_hold, remote_hold, open_delay, ka_delay, script)| Case { passive, local_hold, remote_hold, open_delay, ka_delay, script })
 }
